@@ -315,6 +315,7 @@ func runGoRT(c *Case, o *Obs) {
 		return
 	}
 	o.Text = printable(bs)
+	holdBytes("the bytes Marshal returned", bs)
 	canon := floatsCanonical(jbs)
 	o.Canon = &canon
 	if v == nil {
@@ -339,6 +340,7 @@ func runGoRT(c *Case, o *Obs) {
 		return
 	}
 	o.Ok, o.Res = true, "ok"
+	holdValue("the value Unmarshal stored", p.Interface())
 	o.Deep = reflect.DeepEqual(p.Elem().Interface(), q.Elem().Interface())
 	o.Ident = reflect.DeepEqual(p.Elem().Interface(), v)
 	b1, e1 := json.Marshal(p.Elem().Interface())
